@@ -261,6 +261,42 @@ def body_models(case):
     return labels
 
 
+def body_many_alive(case):
+    """Many cloud model objects of distinct configurations (every month, both spellings of the map version, uniform
+    decks) are created in a generated order and ALL KEPT ALIVE; each is queried when it is created and again after all
+    the others exist: the answers of an object do not change because other objects were created (bounded caches that
+    recycle a buffer an older object still uses)."""
+    locs = case["locs"]
+    keys = []
+    for month in range(1, 13):
+        for version in (0, "0"):
+            keys.append(("map", month, version))
+    for altitude in (2.0, 7.5):
+        keys.append(("mono", altitude, None))
+    order = [keys[i % len(keys)] for i in case["order"]]
+    seen = []
+    for k_ in order + keys:
+        if k_ not in seen:
+            seen.append(k_)
+    alive = []
+    for kind, a, b in seen:
+        model = {"id": "pressure_map", "month": a, "version": b} if kind == "map" else {"id": "monocloud", "altitude": a}
+        with cut(f"CloudTopHeight({model})"):
+            f = _cloud(model)
+            first = [np.asarray(f(la, lo)).tobytes() for la, lo in locs]
+        alive.append((model, f, first))
+    for model, f, first in alive:
+        with cut(f"CloudTopHeight({model}) queried again"):
+            later = [np.asarray(f(la, lo)).tobytes() for la, lo in locs]
+        require(later == first, f"the cloud model object for {model} answers differently after {len(alive)} model objects of other configurations were created (and are alive): e.g. {[float(np.frombuffer(x, dtype=np.asarray(f(*locs[0])).dtype)[0]) for x in later[:3]]} instead of {[float(np.frombuffer(x, dtype=np.asarray(f(*locs[0])).dtype)[0]) for x in first[:3]]}")
+    # the two spellings of the version are the same map
+    by = {(m["month"], str(m["version"])): fr for m, _, fr in alive if m["id"] == "pressure_map" and isinstance(m["version"], int)}
+    for m, _, fr in alive:
+        if m["id"] == "pressure_map" and isinstance(m["version"], str):
+            require(by[(m["month"], m["version"])] == fr, f"month {m['month']}: version 0 and version '0' give different cloud tops")
+    return {"many_alive", f"objects={len(alive)}"}
+
+
 lat_st = st.one_of(
     st.floats(-0.5 * math.pi, 0.5 * math.pi),
     st.floats(-0.5 * math.pi, 0.5 * math.pi),
@@ -351,6 +387,15 @@ SUBCHECKS = [
         {"quick": 900, "thorough": 60000},
         doc="NoCloud/MonoCloud constant everywhere; PressureMap == own atmosphere of a bracketing map node (map read with astropy.io.fits), all months",
         tolerances={"altitude_rel": 1e-6},
+    ),
+    SubCheck(
+        "many_models_alive",
+        st.fixed_dictionaries({"locs": st.lists(loc_st, min_size=6, max_size=12), "order": st.lists(st.integers(0, 25), min_size=0, max_size=26)}),
+        body_many_alive,
+        lambda labels: True,
+        {"quick": 12, "thorough": 300},
+        doc="26 cloud model objects of distinct configurations (12 months x both spellings of the map version, two uniform decks) created in generated order and kept alive: each object's answers when created == its answers after all others exist",
+        shrink=False,
     ),
     SubCheck(
         "event_site",
